@@ -28,6 +28,12 @@ func init() {
 					mm.Note = "Write modified its argument"
 					return mm
 				}
+				if st.Has("exp") {
+					if mm := Diff(i, objs[st.Int("o")].Sum(nil), st.Hex("exp")); mm != nil {
+						mm.Note = "digest after this write"
+						return mm
+					}
+				}
 			case "sum":
 				out := objs[st.Int("o")].Sum(st.Hex("prefix"))
 				if mm := Diff(i, out, st.Hex("exp")); mm != nil {
@@ -35,6 +41,12 @@ func init() {
 				}
 			case "reset":
 				objs[st.Int("o")].Reset()
+				if st.Has("exp") {
+					if mm := Diff(i, objs[st.Int("o")].Sum(nil), st.Hex("exp")); mm != nil {
+						mm.Note = "digest after reset"
+						return mm
+					}
+				}
 			case "marshal":
 				b, err := objs[st.Int("o")].(encoding.BinaryMarshaler).MarshalBinary()
 				if err != nil {
@@ -44,6 +56,12 @@ func init() {
 			case "unmarshal":
 				if err := objs[st.Int("o")].(encoding.BinaryUnmarshaler).UnmarshalBinary(snap); err != nil {
 					return &Mismatch{Step: i, Kind: "errmismatch", Got: "error: " + err.Error(), Exp: "ok"}
+				}
+				if st.Has("exp") {
+					if mm := Diff(i, objs[st.Int("o")].Sum(nil), st.Hex("exp")); mm != nil {
+						mm.Note = "digest after import"
+						return mm
+					}
 				}
 			case "oneshot":
 				s := sm3.Sum(st.Hex("data"))
